@@ -271,6 +271,28 @@ def main():
                                      "in=%s;build=%s" % (ui, ub),
                                      dict(rp, units_in=ui, units_build=ub,
                                           err=e), rp)
+                    # the same matrix read through the public accessors
+                    # while the units of the build are active (for purely
+                    # electronic aggregates the electronic Hamiltonian is
+                    # the Hamiltonian)
+                    f = R.to_internal(1.0, ub)
+                    with qr.energy_units(ub):
+                        Hg = numpy.array(ag1.get_Hamiltonian().data)
+                        He = numpy.array(
+                            ag1.get_electronic_Hamiltonian().data)
+                    for nm_, Hx in (("get_Hamiltonian", Hg),
+                                    ("get_electronic_Hamiltonian", He)):
+                        e = float(numpy.abs(numpy.real(Hx) * f - H0).max()
+                                  ) / float(numpy.abs(H0).max())
+                        ck.case("units-independent", (s, ui, ub, nm_),
+                                nontrivial=ub != "int",
+                                sample=dict(rp, units_in=ui, units_read=ub,
+                                            accessor=nm_, err=e))
+                        if e > 1e-12:
+                            ck.violation("units-independent",
+                                         "read:%s:%s" % (nm_, ub),
+                                         dict(rp, units_in=ui, units_read=ub,
+                                              accessor=nm_, err=e), rp)
 
     # ------------------------------------------------ point-dipole formula
     debye = 1.0e-21 / const.c                     # C m
